@@ -3,7 +3,7 @@
    UpdateIndex (entries in the order they sit in the replica's entry map), the keys queried and
    what the MetadataStore getters reported after the last one. *)
 From Coq Require Import List NArith Bool.
-From Wesh Require Import Model.MetaLog.
+From Wesh Require Import Model.MetaLog Model.C04_Alias.
 Import ListNotations.
 Open Scope N_scope.
 
@@ -37,12 +37,17 @@ Definition obs_eqb (a b : obs) : bool :=
   list_eqb N.eqb (o_creds a) (o_creds b).
 
 Inductive case :=
-| CIdx (own : N) (logs : list (list entry)) (pks groups devs members : list N) (observed : obs).
+| CIdx (own : N) (logs : list (list entry)) (pks groups devs members : list N) (observed : obs)
+(* the alias keys of a contact group: own device, own member, the successive logs, ownAliasKeySent, otherAliasKey *)
+| CAlias (own ownm : N) (logs : list (list entry)) (sent : bool) (other : option N).
 
 Definition case_ok (c : case) : bool :=
   match c with
   | CIdx own logs pks groups devs members observed =>
       obs_eqb (observe (fold_left (update_index own) logs ginit) pks groups devs members) observed
+  | CAlias own ownm logs sent other =>
+      let a := snd (fold_left (update_full own ownm) logs full_init) in
+      Bool.eqb (a_sent a) sent && oN_eqb (a_other a) other
   end.
 
 Fixpoint mismatches_from (i : N) (cs : list case) : list N :=
